@@ -521,7 +521,7 @@ func (c19) Run(e *Env) {
 		}
 	}
 
-	nSteps := e.Range(3, 35)
+	nSteps := e.Range(3, 35*e.Depth())
 	for step := 0; step < nSteps; step++ {
 		acceptSink()
 		check(false)
